@@ -26,7 +26,7 @@ const G: i128 = 1_000_000_000;
 const UNIT: i128 = 65_536;
 const DRIFT_PPB: u32 = 65_536;
 const T0: i128 = 1_700_000_000; // true time of model second 0 (s since the epoch)
-const M0: i128 = 5_000; // uptime of model second 0
+const M0: i128 = 1; // uptime of model second 0 (just after boot: the placeholder record with as_of 0 is then neither fresh nor void)
 
 fn arg(args: &[String], name: &str) -> Option<String> {
     args.iter().position(|a| a == name).and_then(|i| args.get(i + 1).cloned())
